@@ -17,7 +17,7 @@ def tl_mode(segs):
     h = 0
     for a, b in segs:
         h = (h * 29 + 5 * a + 11 * b) % 1000003
-    return (h + len(segs)) % 9
+    return (h + len(segs)) % 10
 
 
 def mk_tl(tb, segs, uri=None, mode=None):
@@ -30,7 +30,10 @@ def mk_tl(tb, segs, uri=None, mode=None):
     by both operands that is removed after the merge; 6 a copy() of a timeline holding `segs`, whose source is then
     edited (an addition, a removal); 7 a copy() of a partial timeline, completed in place, whose source is then edited;
     8 all but the last segment built, then used as an operand of every non-mutating binary operation (union, |, crop,
-    extrude, covers, co_iter, ==) with a timeline that holds the last segment, and only then completed in place."""
+    extrude, covers, co_iter, ==) with a timeline that holds the last segment, and only then completed in place;
+    9 built from a caller-owned container (a set, a list or a frozenset, by turns) that also feeds a second timeline;
+    the second timeline and the container itself are then edited, and the container must not change under edits of a
+    timeline."""
     from pyannote.core import Timeline
     mode = tl_mode(segs) if mode is None else mode
     S = [tb.S(s) for s in segs]
@@ -78,6 +81,24 @@ def mk_tl(tb, segs, uri=None, mode=None):
         for x in list(src)[:2]:
             src.remove(x)
         src.uri = "zz_source"
+        return t
+    if mode == 9:
+        kind = len(segs) % 3
+        box = set(S) if kind == 0 else list(S) if kind == 1 else frozenset(S)
+        twin = Timeline(box, uri="twin")
+        t = Timeline(box, uri=uri)
+        snap = list(box) if kind == 1 else set(box)
+        twin.add(dummy)
+        for x in list(twin)[:2]:
+            twin.remove(x)
+        twin.update(Timeline([tb.S([far + 20, far + 30])]))
+        assert (list(box) if kind == 1 else set(box)) == snap, "editing a timeline changed the container it was built from"
+        if kind == 0:
+            box.add(tb.S([far + 40, far + 50]))
+            box.discard(S[0])
+        elif kind == 1:
+            box.append(tb.S([far + 40, far + 50]))
+            del box[0]
         return t
     if mode == 8:
         t = Timeline(S[:-1], uri=uri)
